@@ -23,8 +23,9 @@ import (
 )
 
 type gnode struct {
-	op   string // Take Give Add Done Wait New Get Rel Ret Brk Panic Unknown | If GetIf Alt Loop Closure Defer
+	op   string // Take Give Add Done Wait New Get Rel Lock Unlock SetVar Ret Brk Panic Unknown | If IfVar GetIf Alt Loop Closure Inline Defer
 	arg  string
+	arg2 string
 	kids [][]*gnode
 }
 
@@ -37,8 +38,14 @@ func (g *gnode) coq() string {
 		return "[" + strings.Join(s, "; ") + "]"
 	}
 	switch g.op {
-	case "Take", "Give", "Add", "Done", "Wait", "New", "Ret", "Unknown":
+	case "Take", "Give", "Add", "Done", "Wait", "New", "Ret", "Unknown", "Lock", "Unlock":
 		return "G" + g.op + " " + cstr(g.arg)
+	case "SetVar":
+		return "GSetVar " + cstr(g.arg) + " " + g.arg2
+	case "IfVar":
+		return "GIfVar " + cstr(g.arg) + " " + g.arg2 + " " + list(g.kids[0]) + " " + list(g.kids[1])
+	case "Defer":
+		return "GDefer " + g.arg + " " + list(g.kids[0])
 	case "Get", "Rel", "Panic":
 		return "G" + g.op
 	case "Brk":
@@ -51,26 +58,31 @@ func (g *gnode) coq() string {
 			s[i] = list(k)
 		}
 		return "GAlt [" + strings.Join(s, "; ") + "]"
-	case "Loop", "Closure", "Defer", "Inline":
+	case "Loop", "Closure", "Inline":
 		return "G" + g.op + " " + list(g.kids[0])
 	}
 	return "GUnknown " + cstr(g.op)
 }
 
 // relevant: does the list contain anything but structure
-func gRelevant(l []*gnode) bool {
+func gRelevant(l []*gnode) bool { return gRelevantV(l, false) }
+
+func gRelevantV(l []*gnode, vars bool) bool {
 	for _, g := range l {
+		if vars && g.op == "SetVar" {
+			return true
+		}
 		switch g.op {
-		case "If", "GetIf", "Alt", "Loop", "Closure", "Defer", "Inline":
+		case "If", "IfVar", "GetIf", "Alt", "Loop", "Closure", "Defer", "Inline":
 			if g.op == "GetIf" {
 				return true
 			}
 			for _, k := range g.kids {
-				if gRelevant(k) {
+				if gRelevantV(k, vars) {
 					return true
 				}
 			}
-		case "Ret", "Brk", "Panic":
+		case "Ret", "Brk", "Panic", "SetVar":
 		default:
 			return true
 		}
@@ -84,7 +96,7 @@ func gHasExit(l []*gnode) bool {
 		switch g.op {
 		case "Ret", "Brk", "Panic":
 			return true
-		case "If", "GetIf", "Alt", "Loop":
+		case "If", "IfVar", "GetIf", "Alt", "Loop":
 			for _, k := range g.kids {
 				if gHasExit(k) {
 					return true
@@ -93,6 +105,11 @@ func gHasExit(l []*gnode) bool {
 		}
 	}
 	return false
+}
+
+func isIdentNamed(e ast.Expr, name string) bool {
+	id, ok := e.(*ast.Ident)
+	return ok && id.Name == name
 }
 
 func genGate(repo, out string) {
@@ -175,9 +192,6 @@ func genGate(repo, out string) {
 	}
 	var fns []gfn
 	for _, p := range pkgs {
-		if p.short == "cache" {
-			continue
-		}
 		info := p.info
 		fieldOf := func(e ast.Expr) *types.Var {
 			if sel, ok := e.(*ast.SelectorExpr); ok {
@@ -266,6 +280,53 @@ func genGate(repo, out string) {
 			return c
 		}
 
+		nDefer := 0
+		newDefer := func(body []*gnode) *gnode {
+			nDefer++
+			return &gnode{op: "Defer", arg: fmt.Sprint(nDefer), kids: [][]*gnode{body}}
+		}
+		mutexClass := func(x ast.Expr) (string, bool) {
+			tv, ok := info.Types[x]
+			if !ok || !isMutex(tv.Type) {
+				return "", false
+			}
+			if sel, ok := x.(*ast.SelectorExpr); ok {
+				if se := info.Selections[sel]; se != nil {
+					if n := namedOf(se.Recv()); n != nil {
+						return n.Obj().Name() + "." + sel.Sel.Name, true
+					}
+				}
+				return "?." + sel.Sel.Name, true
+			}
+			if id, ok := x.(*ast.Ident); ok {
+				return "local." + id.Name, true
+			}
+			return "?", true
+		}
+		// the `locked` flags: bool variables / parameters of that name
+		lockedVar := func(e ast.Expr) (string, bool) {
+			id, ok := e.(*ast.Ident)
+			if !ok || id.Name != "locked" {
+				return "", false
+			}
+			if tv, ok := info.Types[e]; ok {
+				if b, ok := tv.Type.Underlying().(*types.Basic); ok && b.Kind() == types.Bool {
+					return id.Name, true
+				}
+			}
+			return "", false
+		}
+		lockedCond := func(e ast.Expr) (string, bool, bool) {
+			if v, ok := lockedVar(e); ok {
+				return v, false, true
+			}
+			if u, ok := e.(*ast.UnaryExpr); ok && u.Op == token.NOT {
+				if v, ok := lockedVar(u.X); ok {
+					return v, true, true
+				}
+			}
+			return "", false, false
+		}
 		// breakable: stack of "alt" / "loop"
 		var walkStmts func(l []ast.Stmt, brk []string) []*gnode
 		var walkNode func(n ast.Node, brk []string) []*gnode
@@ -315,9 +376,9 @@ func genGate(repo, out string) {
 			case *ast.DeferStmt:
 				if fl, ok := x.Call.Fun.(*ast.FuncLit); ok {
 					o := walkExprs(x.Call.Args, brk)
-					return append(o, &gnode{op: "Defer", kids: [][]*gnode{walkStmts(fl.Body.List, nil)}})
+					return append(o, newDefer(walkStmts(fl.Body.List, nil)))
 				}
-				return []*gnode{{op: "Defer", kids: [][]*gnode{walkNode(x.Call, brk)}}}
+				return []*gnode{newDefer(walkNode(x.Call, brk))}
 			case *ast.GoStmt:
 				o := walkExprs(x.Call.Args, brk)
 				if fl, ok := x.Call.Fun.(*ast.FuncLit); ok {
@@ -348,6 +409,12 @@ func genGate(repo, out string) {
 				op := "If"
 				if isGet {
 					op = "GetIf"
+				} else if v, neg, ok := lockedCond(x.Cond); ok {
+					n2 := "false"
+					if neg {
+						n2 = "true"
+					}
+					return append(o, &gnode{op: "IfVar", arg: v, arg2: n2, kids: [][]*gnode{th, el}})
 				}
 				return append(o, &gnode{op: op, kids: [][]*gnode{th, el}})
 			case *ast.SwitchStmt, *ast.TypeSwitchStmt, *ast.SelectStmt:
@@ -418,7 +485,36 @@ func genGate(repo, out string) {
 				return walkNode(x.X, brk)
 			case *ast.CompositeLit:
 				var o []*gnode
+				// the callbacks handed to a cache run in sequence on one goroutine of the cache: PrunePreFn, PruneFn, PrunePostFn
+				cb := map[string]*ast.FuncLit{}
+				if tv, ok := info.Types[x]; ok {
+					if n := namedOf(tv.Type); n != nil && n.Obj().Name() == "Opts" && n.Obj().Pkg() != nil && strings.HasSuffix(n.Obj().Pkg().Path(), "internal/cache") {
+						for _, e := range x.Elts {
+							if kv, ok := e.(*ast.KeyValueExpr); ok {
+								if id, ok := kv.Key.(*ast.Ident); ok {
+									if fl, ok := kv.Value.(*ast.FuncLit); ok && (id.Name == "PrunePreFn" || id.Name == "PruneFn" || id.Name == "PrunePostFn") {
+										cb[id.Name] = fl
+									}
+								}
+							}
+						}
+					}
+				}
+				if cb["PrunePreFn"] != nil || cb["PrunePostFn"] != nil {
+					var seq []*gnode
+					for _, k := range []string{"PrunePreFn", "PruneFn", "PrunePostFn"} {
+						if cb[k] != nil {
+							seq = append(seq, &gnode{op: "Inline", kids: [][]*gnode{walkStmts(cb[k].Body.List, nil)}})
+						}
+					}
+					o = append(o, &gnode{op: "Closure", kids: [][]*gnode{seq}})
+				}
 				for _, e := range x.Elts {
+					if kv, ok := e.(*ast.KeyValueExpr); ok && (cb["PrunePreFn"] != nil || cb["PrunePostFn"] != nil) {
+						if id, ok := kv.Key.(*ast.Ident); ok && cb[id.Name] != nil {
+							continue
+						}
+					}
 					o = append(o, walkNode(e, brk)...)
 				}
 				if tv, ok := info.Types[x]; ok {
@@ -454,6 +550,20 @@ func genGate(repo, out string) {
 					}
 				}
 				o = append(o, walkExprs(x.Rhs, brk)...)
+				for i, l := range x.Lhs {
+					if v, ok := lockedVar(l); ok || (x.Tok == token.DEFINE && isIdentNamed(l, "locked")) {
+						if !ok {
+							v = "locked"
+						}
+						if len(x.Rhs) == len(x.Lhs) {
+							if id, ok := x.Rhs[i].(*ast.Ident); ok && (id.Name == "true" || id.Name == "false") {
+								o = append(o, &gnode{op: "SetVar", arg: v, arg2: id.Name})
+								continue
+							}
+						}
+						o = append(o, &gnode{op: "Unknown", arg: "`locked` assigned something else than a literal"})
+					}
+				}
 				return o
 			case *ast.CallExpr:
 				var o []*gnode
@@ -467,6 +577,15 @@ func genGate(repo, out string) {
 					}
 				}
 				if sel, ok := x.Fun.(*ast.SelectorExpr); ok {
+					if c, ok := mutexClass(sel.X); ok {
+						switch sel.Sel.Name {
+						case "Lock":
+							return []*gnode{{op: "Lock", arg: c}}
+						case "Unlock":
+							return []*gnode{{op: "Unlock", arg: c}}
+						}
+						return []*gnode{{op: "Unknown", arg: sel.Sel.Name + " on mutex " + c}}
+					}
 					if v := fieldOf(sel.X); v != nil && gateWg[v] {
 						switch sel.Sel.Name {
 						case "Add":
@@ -538,10 +657,10 @@ func genGate(repo, out string) {
 					g.kids[i] = prune(g.kids[i])
 				}
 				switch g.op {
-				case "If", "Alt", "Loop":
+				case "If", "IfVar", "Alt", "Loop":
 					keep := false
 					for _, k := range g.kids {
-						if gRelevant(k) || gHasExit(k) {
+						if gRelevantV(k, true) || gHasExit(k) {
 							keep = true
 						}
 					}
@@ -564,6 +683,7 @@ func genGate(repo, out string) {
 				if !ok || fd.Body == nil {
 					continue
 				}
+				nDefer = 0
 				body := prune(walkStmts(fd.Body.List, nil))
 				if !gRelevant(body) {
 					continue
